@@ -485,15 +485,35 @@ func deriveTripCount(loop *Loop) {
 	// The formulas below count iterations of a top-tested loop that continues while the
 	// condition holds. Anything else (bottom-tested loops, "if cond { break }") is left unknown.
 	if exitBlock != loop.Header || len(exitBlock.Succs) != 2 ||
-		!loop.Blocks[exitBlock.Succs[0]] || loop.Blocks[exitBlock.Succs[1]] {
+		loop.Blocks[exitBlock.Succs[0]] == loop.Blocks[exitBlock.Succs[1]] {
 		loop.TripCount = &SCEVUnknown{Value: nil}
 		return
+	}
+	// A header that leaves the loop when the condition holds ("for !(i >= n)") continues while the
+	// complementary comparison holds: it is the same loop as "for i < n" and gets the same count.
+	op := binOp.Op
+	if !loop.Blocks[exitBlock.Succs[0]] {
+		switch op {
+		case token.LSS:
+			op = token.GEQ
+		case token.LEQ:
+			op = token.GTR
+		case token.GTR:
+			op = token.LEQ
+		case token.GEQ:
+			op = token.LSS
+		case token.EQL:
+			op = token.NEQ
+		default:
+			loop.TripCount = &SCEVUnknown{Value: nil}
+			return
+		}
 	}
 
 	var isUpCounting, ivOnLeft bool
 	var isInclusive, isNEQ bool
 
-	switch binOp.Op {
+	switch op {
 	case token.LSS:
 		isUpCounting = true
 		ivOnLeft = true
